@@ -1137,6 +1137,21 @@ def layer_refused(ck):
                     if not ok or probe != ("b", b"v") or now_ != before:
                         det.update({"probe_GET_k1": str(probe), "dump_before": before, "dump_after": now_, "after_marker": str(after_set)})
                         ck.fail("refused", "%s inside a script was not refused cleanly" % n, det)
+        # blocking options of commands that ARE allowed must not block inside a script (XREAD BLOCK, XREADGROUP BLOCK)
+        c.cmd("XADD", "x", "1-1", "f", "v")
+        c.cmd("XGROUP", "CREATE", "x", "g", "$")
+        before = dump(c)
+        for a in ([b"XREAD", b"BLOCK", b"0", b"STREAMS", b"x", b"$"], [b"XREADGROUP", b"GROUP", b"g", b"c1", b"BLOCK", b"0", b"STREAMS", b"x", b">"]):
+            try:
+                got = c.cmd("EVAL", "return type(redis.pcall(unpack(ARGV)))", "0", *a, timeout=4.0)
+                blocked = False
+            except (TimeoutError, Closed, ProtocolError, OSError):
+                got, blocked = None, True
+            rep.evaluations += 1
+            rep.nontrivial(("refused-blocking-option", a[0], blocked))
+            if blocked or dump(c) != before:
+                ck.fail("refused", "%s with BLOCK inside a script blocked the server" % a[0].decode(), {"args": [x.decode() for x in a], "reply": str(got)})
+                break
         rep.extra["refused_names_probed"] = len(todo)
         rep.extra["refused_names_not_sent"] = sorted(NOT_SENT)
     finally:
@@ -1302,8 +1317,8 @@ def main(tier, seed):
     r = Rng(seed)
     try:
         q = tier == "quick"
-        layer_twin(ck, r, 220 if q else 4000, 30 if q else 40)
-        layer_programs(ck, r, 80 if q else 1500, 16 if q else 30)
+        layer_twin(ck, r, 220 if q else 3000, 30 if q else 40)
+        layer_programs(ck, r, 80 if q else 1000, 16 if q else 30)
         layer_refused(ck)
         layer_sandbox(ck)
         layer_atomic(ck, 3, 150 if q else 1500)
